@@ -212,12 +212,14 @@ Alpha(dd, name) ==
 (* Meta-schema side conditions between sibling keywords (d4: "dependencies" *)
 (* of the meta-schema: exclusiveMaximum requires maximum, exclusiveMinimum  *)
 (* requires minimum).                                                       *)
-Coherent(dd, o) ==
-  dd = "d4" => /\ S("exclusiveMaximum") \in DOMAIN o[2] => S("maximum") \in DOMAIN o[2]
+Coherent(dd, root) ==
+  dd = "d4" => \A o \in Subs(dd, root) : o[1] = "obj" =>
+               /\ S("exclusiveMaximum") \in DOMAIN o[2] => S("maximum") \in DOMAIN o[2]
                /\ S("exclusiveMinimum") \in DOMAIN o[2] => S("minimum") \in DOMAIN o[2]
 
 (* Nest: the wrappers.  h = hoisted definitions of the old root, x = the    *)
 (* old root without them.                                                   *)
+UsesKw(dd, root, k) == \E y \in Subs(dd, root) : y[1] = "obj" /\ S(k) \in DOMAIN y[2]
 DefKeys == {S("$defs"), S("definitions")}
 Strip(o) == IF o[1] = "obj" THEN JObj([k \in (DOMAIN o[2]) \ DefKeys |-> o[2][k]]) ELSE o
 Hoist(o, w) == IF o[1] = "obj" THEN JObj([k \in (DOMAIN w[2]) \cup ((DOMAIN o[2]) \cap DefKeys) |-> IF k \in DOMAIN w[2] THEN w[2][k] ELSE o[2][k]])
@@ -257,7 +259,8 @@ Wraps(dd, x, name) ==
           K2("properties", O1(A, x), "additionalProperties", K1("$ref", JStr(<<35, 47>> \o S("properties") \o <<47>> \o A))),
           K2("not", x, "properties", O1(A, K1("$ref", JStr(<<35, 47>> \o S("not"))))),
           K2("properties", O1(A, K1("$ref", JStr(<<35>>))), "allOf", Ar(<<x>>)) }                  \* recursion through the root
-        \cup (IF x[1] = "obj" /\ AnchorName(dd, x) = <<>> /\ S("$ref") \notin DOMAIN x[2] /\ S("$id") \notin DOMAIN x[2] /\ S("id") \notin DOMAIN x[2]
+        \* (array-valued "dependencies" below an "$id"/"id" anchor crash the reference validator's resource crawler: left out)
+        \cup (IF x[1] = "obj" /\ AnchorName(dd, x) = <<>> /\ S("$ref") \notin DOMAIN x[2] /\ ~UsesKw(dd, x, "dependencies") /\ S("$id") \notin DOMAIN x[2] /\ S("id") \notin DOMAIN x[2]
               THEN { K2(dk, O1(A, WithKv(x, AnchorKv(dd, X))), "$ref", JStr(<<35>> \o X)),
                      K2("properties", O1(A, WithKv(x, AnchorKv(dd, X))), "additionalProperties", K1("$ref", JStr(<<35>> \o X))) }
               ELSE {})
@@ -323,7 +326,7 @@ Steer(dd, root, x, fuel) ==
       at(k) == f[S(k)]
       sub(y) == Steer(dd, root, y, fuel - 1)
       subs(q) == UNION { sub(q[j]) : j \in 1..Len(q) }
-      submap(o) == UNION { IF IsSchemaVal(o[2][k]) THEN sub(o[2][k]) ELSE {} : k \in DOMAIN o[2] }
+      submap(o) == UNION { IF IsSchemaVal(dd, o[2][k]) THEN sub(o[2][k]) ELSE {} : k \in DOMAIN o[2] }
       nums == UNION { IF has(k) /\ at(k)[1] = "int" THEN { I(n) : n \in Around(at(k)[2]) } ELSE {}
                       : k \in {"maximum", "minimum", "exclusiveMaximum", "exclusiveMinimum"} }
               \cup (IF has("multipleOf") THEN { I(at("multipleOf")[2]), I(at("multipleOf")[2] + 1), I(2 * at("multipleOf")[2]), I(Neg(at("multipleOf")[2])) } ELSE {})
@@ -337,9 +340,9 @@ Steer(dd, root, x, fuel) ==
       depo(o) == UNION { IF o[2][k][1] = "arr" THEN { JObj([z \in {k} \cup { y[2] : y \in SeqElems(o[2][k][2]) } |-> I(1)]) } ELSE {} : k \in DOMAIN o[2] }
       deps == (IF has("dependentRequired") THEN depo(at("dependentRequired")) ELSE {}) \cup (IF has("dependencies") THEN depo(at("dependencies")) ELSE {})
       props == IF has("properties") THEN UNION { { O1(k, y) : y \in sub(at("properties")[2][k]) } : k \in DOMAIN at("properties")[2] } ELSE {}
-      addl == UNION { IF has(k) THEN { O1(C, y) : y \in sub(at(k)) } \cup { O2(A, I(1), C, y) : y \in sub(at(k)) } ELSE {} : k \in {"additionalProperties", "unevaluatedProperties"} }
+      addl == UNION { IF has(k) /\ IsSchemaVal(dd, at(k)) THEN { O1(C, y) : y \in sub(at(k)) } \cup { O2(A, I(1), C, y) : y \in sub(at(k)) } ELSE {} : k \in {"additionalProperties", "unevaluatedProperties"} }
       pnam == IF has("propertyNames") THEN { O1(y[2], I(1)) : y \in { z \in sub(at("propertyNames")) : z[1] = "str" } } ELSE {}
-      elem == UNION { IF has(k) /\ IsSchemaVal(at(k)) THEN { Ar(<<y>>) : y \in sub(at(k)) } \cup { Ar(<<I(1), y>>) : y \in sub(at(k)) } ELSE {}
+      elem == UNION { IF has(k) /\ IsSchemaVal(dd, at(k)) THEN { Ar(<<y>>) : y \in sub(at(k)) } \cup { Ar(<<I(1), y>>) : y \in sub(at(k)) } ELSE {}
                       : k \in {"items", "additionalItems", "contains", "unevaluatedItems"} }
       posn == UNION { IF has(k) /\ at(k)[1] = "arr" THEN UNION { { Ar(Append(Rep(I(1), j - 1), y)) : y \in sub(at(k)[2][j]) } : j \in 1..Len(at(k)[2]) } ELSE {}
                       : k \in {"items", "prefixItems"} }
@@ -352,6 +355,16 @@ Steer(dd, root, x, fuel) ==
 Steered == SetToSeq(Steer(d, s, s, 4) \ BaseSet)
 
 -----------------------------------------------------------------------------
+(* Declared don't-care classes (field "dc" of a case; the verdict of such a  *)
+(* case is not compared with the prediction - notes/C11.md):                 *)
+(*  d2019-contains-unevaluatedItems  C 2019-09 9.3.1.3 lets unevaluatedItems *)
+(*     depend on items / additionalItems / unevaluatedItems annotations only *)
+(*     ("contains" produces none before 2020-12), the reference validator    *)
+(*     counts the elements matched by "contains" as evaluated in 2019-09     *)
+(*     too, and the test suite has no case: the two references disagree.     *)
+DontCare(dd, root) ==
+  IF dd = "d2019" /\ UsesKw(dd, root, "contains") /\ UsesKw(dd, root, "unevaluatedItems") THEN {"d2019-contains-unevaluatedItems"} ELSE {}
+
 (* Known deviations of the implementation (classification only).            *)
 DevOf(dd, root) == {}
 
@@ -359,7 +372,7 @@ DevOf(dd, root) == {}
 Code(st) == CASE st = "ok" -> 1 [] st = "bad" -> 0 [] st = "loop" -> 2
 BaseCase == [k |-> "base", v |-> [j \in 1..Len(BaseSeq) |-> Wire(BaseSeq[j])]]
 Case == LET xs == Steered IN
-  [k |-> "c", d |-> d, s |-> Wire(s), dev |-> SetToSeq(DevOf(d, s)),
+  [k |-> "c", d |-> d, s |-> Wire(s), dev |-> SetToSeq(DevOf(d, s)), dc |-> SetToSeq(DontCare(d, s)),
    r |-> [j \in 1..Len(BaseSeq) |-> Code(Valid(d, s, BaseSeq[j]))],
    x |-> [j \in 1..Len(xs) |-> <<Wire(xs[j]), Code(Valid(d, s, xs[j]))>>]]
 Emit == IF pc = 0 THEN (PlanName = "base" => PrintT(ToJson(BaseCase)))
